@@ -15,7 +15,7 @@
 From Coq Require Import List NArith Bool.
 From XmlRs Require Import Base.CPred Model.XPathAst Model.XDoc Model.XDocCheck Model.XPathEval.
 From XmlRs Require Import Proofs.XPathNav Proofs.XPathAstPred Proofs.XPathTotal Proofs.XPathDocCheck
-  Proofs.XPathCanon Proofs.XPathExamples Proofs.XPathWitness.
+  Proofs.XPathCanon Proofs.XPathStepBound Proofs.XPathExamples Proofs.XPathWitness.
 Import ListNotations.
 
 (** Evaluation never panics and never exhausts the navigation fuel: for every well-formed table,
@@ -54,6 +54,41 @@ Proof. intros doc n Hwf. exact (string_value_ok doc Hwf n). Qed.
 Theorem C06_doc_wf_decidable : forall doc : xdoc, doc_wf_b doc = true -> DocWf doc.
 Proof. exact doc_wf_b_sound. Qed.
 
+(** The node lists of a relative location path stay small (the fact behind the cost bound, after
+    the repair of [eval_loc_expr]: [a/../a/..] used to double the list at every step).  The model
+    de-duplicates the nodes collected by every step by order key ([step_dedup], nodes with key 0
+    are never dropped).  On a table satisfying [DocInv] (keys of good nodes -- valid, not namespace
+    nodes -- are non-zero and increasing; decidable: [doc_inv_b]):
+    - what a step hands on is duplicate-free, has the same elements as what it collected, and is
+      no longer than the table ([C06_step_lists_bounded]);
+    - hence so is the result of every relative location path with at least one operation, for
+      steps without the namespace axis ([C06_path_lists_bounded]). *)
+Theorem C06_step_lists_bounded :
+  forall (doc : xdoc), DocInv doc ->
+  forall (s : step) (from : list node) (c : ctx) (collected : list node) (c' : ctx),
+    ok_step not_ns_axis any_str any_str s = true -> Forall (good doc) from ->
+    flat_map_m (eval_step doc s) from c = (Ok collected, c') ->
+    NoDup (step_dedup doc collected) /\ (length (step_dedup doc collected) <= length doc)%nat /\
+    Forall (good doc) (step_dedup doc collected) /\
+    (forall x, In x (step_dedup doc collected) <-> In x collected).
+Proof.
+  intros doc Hinv s from c collected c' Hok Hfrom E.
+  destruct (step_dedup_small doc Hinv collected (collected_good doc Hinv s from c collected c' Hok Hfrom E)) as [[H1 [H2 H3]] H4].
+  repeat split; try assumption; apply H4.
+Qed.
+
+Theorem C06_path_lists_bounded :
+  forall (doc : xdoc), DocInv doc ->
+  forall (op : lp_op) (s : step) (t : stepop_list) (nodes : list node) (c : ctx) (r : list node) (c' : ctx),
+    ok_stepop_list not_ns_axis any_str any_str (StepopCons op s t) = true -> Forall (good doc) nodes ->
+    eval_stepops doc (StepopCons op s t) nodes c = (Ok r, c') ->
+    NoDup r /\ (length r <= length doc)%nat.
+Proof.
+  intros doc Hinv op s t nodes c r c' Hok Hn E.
+  destruct (stepops_result_small doc Hinv (StepopCons op s t) nodes c r c' Hok) as [H1 [H2 _]];
+    [discriminate|exact Hn|exact E|]. split; assumption.
+Qed.
+
 (** unsupported constructs and steps selecting nothing: errors or empty node-sets *)
 Example C06_unsupported_examples :
   fst (query pi_doc pi_doc_e2 ctx_default) = Err (XErrNotFoundVariable [118]%N) /\
@@ -74,3 +109,5 @@ Print Assumptions C06_eval_no_panic.
 Print Assumptions C06_query_no_panic.
 Print Assumptions C06_navigation_terminates.
 Print Assumptions C06_string_value_terminates.
+Print Assumptions C06_step_lists_bounded.
+Print Assumptions C06_path_lists_bounded.
